@@ -45,6 +45,27 @@ ASSUME = [
     "sub-int reps: `%` and unary +/- are excluded from the generated API programs (finding F4, recorded as an observation)",
 ]
 
+# Defect candidates found by the directed API-surface probes and reported to the coordinator; each entry matches ONE
+# probe under exactly the configurations in which it fails on the pinned tree (anything else stays a VIOLATION).
+# Remove an entry when /repo is fixed or the finding is listed in known_findings.json.
+PENDING_FINDINGS = [
+    # quantity.hh:113,569 quantity_point.hh:109,268 — `static constexpr ... unit` has no namespace-scope definition:
+    # ODR-use (`const auto &u = q.unit;`, passing `q.unit` by reference) links under C++17/20, not under C++14
+    {"probe": "mini:odr-static-unit", "std": "c++14"},
+    # math.hh:191,197,203 — `constexpr auto copysign(...)` calls std::copysign: a constant expression using it is
+    # accepted by g++ (builtin) and rejected by clang++ under every standard
+    {"probe": "mini:constexpr-copysign", "compiler": "clang++-14"},
+    # quantity.hh:350 — the implicit conversion of a unitless Quantity to its Rep is a conversion function TEMPLATE;
+    # g++ does not consider it for built-in compound assignment (`i += q`), clang++ does
+    {"probe": "mini:compound-assign-unitless", "compiler": "g++"},
+]
+
+
+def is_pending(v):
+    r = v.get("rec", {})
+    return any(all(r.get(k) == w for k, w in p.items()) for p in PENDING_FINDINGS)
+
+
 SCRIPT = os.path.join(vlib.REPO, "tools", "bin", "make-single-file")
 
 HELPER = r'''
@@ -835,6 +856,10 @@ def main(tier, seed):
         violations.append({"what": "check infrastructure failed: %r" % (e,), "class": "infrastructure",
                            "rec": {"kind": "infrastructure", "trace": traceback.format_exc()[-3000:]}, "no_input": True,
                            "broken": "harness"})
+    pending = [v for v in violations if is_pending(v)]
+    violations = [v for v in violations if not is_pending(v)]
+    for c in sorted({v.get("class") for v in pending}):
+        print("PENDING-FINDING: property=%s %s" % (PROP, c))
     # observation (never a violation by itself): headers without `#pragma once`; whether that is harmful is decided
     # by the double-include probe of c20_cxx, which must accept every public header included twice
     nopragma = [f for f in ex["files"]
@@ -858,7 +883,8 @@ def main(tier, seed):
         "exhaustive": False,
         "distribution": dict(stats, order_sizes={"min": min(sizes) if sizes else 0, "max": max(sizes) if sizes else 0,
                                                  "mean": round(sum(sizes) / max(1, len(sizes)), 1)},
-                             cxx=cxx_stats, observations=observations),
+                             cxx=cxx_stats, observations=observations,
+                             pending_findings=sorted({(v.get("class"), v["what"][:200]) for v in pending})),
     }
     if os.environ.get("C20_KEEP") != "1":
         shutil.rmtree(wd, ignore_errors=True)
